@@ -15,6 +15,21 @@ def sym_host(ex, st, hint='host', maxlen=HOSTMAX):
     h = Bytes.symbolic(hint, 'string')
     h = Bytes(h._at, h.len, 'string', None, z3.BoolVal(True))
     ex.assume(st, z3.ULE(h.len, BV(maxlen, 64)))
+    # String type invariant, restricted to the 1- and 2-byte UTF-8 alphabet (stated bound): every byte is ASCII, or a
+    # lead byte C2..DF followed by one continuation byte 80..BF; no other bytes
+    def lead(x):
+        return z3.And(z3.UGE(x, BV(0xC2, 8)), z3.ULE(x, BV(0xDF, 8)))
+    def cont(x):
+        return z3.And(z3.UGE(x, BV(0x80, 8)), z3.ULE(x, BV(0xBF, 8)))
+    inv = []
+    for i in range(maxlen):
+        x = h.at(i)
+        prev = h.at(i - 1) if i > 0 else None
+        ok = z3.Or(z3.ULT(x, BV(0x80, 8)),
+                   z3.And(lead(x), z3.ULT(BV(i + 1, 64), h.len), cont(h.at(i + 1))),
+                   z3.And(cont(x), lead(prev)) if prev is not None else z3.BoolVal(False))
+        inv.append(z3.Implies(z3.ULT(BV(i, 64), h.len), ok))
+    ex.assume(st, z3.And(inv))
     ex.host_ascii = getattr(ex, 'host_ascii', []) + [h]
     st.env['utf8_known'] = st.env.get('utf8_known', []) + [(h, z3.BoolVal(True))]
     return h
@@ -204,7 +219,11 @@ def spec_rpfm_roundtrip(ck, hostmax=HOSTMAX):
             # (1) whatever was sent: the receiver gets an error or exactly the same destination -- never another one
             if fr2 is not None:
                 same = z3.And(opt_target_eq(ex, fr2.fields[0], addr), fr2.fields[1].t == sid.t)
-                ex.prove(o, 'C03/rpfm/decoded-destination-equals-sent-or-error', z3.Implies(okd, same))
+                long_host = z3.And(has_addr, parts['kind'] == BV(iD, 64), z3.UGT(host.len, BV(253, 64)))
+                ex.prove(o, 'C03/rpfm/decoded-destination-equals-sent-or-error', z3.Implies(z3.And(okd, z3.Not(long_host)), same))
+                # hosts that do not fit the one-byte length field (a separate obligation so that the recorded finding
+                # about them cannot hide any other way of corrupting a destination)
+                ex.prove(o, 'C03/rpfm/overlong-host-refused-not-truncated', z3.Implies(z3.And(okd, long_host), same))
                 j = z3.BitVec(fresh_name('bj'), 64)
                 b2 = fr2.fields[2]
                 ex.prove(o, 'C03/rpfm/body-not-mixed-with-address',
@@ -319,7 +338,7 @@ def replay_plan(ob):
         representable = hostlen <= 253 and inp.get('body_len', 0) <= 65535
         if 'representable-destination-accepted' in lab:
             return 'frames', case, lambda o: representable and not o.get('panicked') and o.get('ok') is False
-        if 'decoded-destination-equals-sent-or-error' in lab:
+        if 'decoded-destination-equals-sent-or-error' in lab or 'overlong-host-refused-not-truncated' in lab:
             return 'frames', case, lambda o: not o.get('panicked') and o.get('ok') and not (o.get('same_addr') and o.get('same_sid'))
         if 'body-not-mixed' in lab:
             return 'frames', case, lambda o: representable and not o.get('panicked') and o.get('ok') and not o.get('same_body')
@@ -337,12 +356,14 @@ def replay_plan(ob):
             return 'socks', case, lambda o: not o.get('panicked') and o.get('dec_ok') and not o.get('same_addr')
         if 'payload-exact' in lab:
             return 'socks', case, lambda o: not o.get('panicked') and o.get('dec_ok') and not o.get('same_body')
-    m = re.match(r'^C03/socksv(\d)-request/(.*)$', lab)
+    m = re.match(r'^C(?:03|12)/socksv(\d)-request/(.*)$', lab)
     if m and 'kind' in inp and _host_is_text(inp):
         ver = int(m.group(1))
         args = _target_args(inp)
-        args.update({'version': ver, 'cmd': inp.get('cmd', 1), 'server_reply': _hx(inp.get('server_reply', {})) or '', 'chunk': 0})
-        case = {'driver': 'request_roundtrip', 'args': args}
+        args.update({'version': ver, 'cmd': inp.get('cmd', 1), 'server_reply': _hx(inp.get('server_reply', {})) or '', 'chunk': 0,
+                     'tail': _hx(inp.get('pipelined_payload', {})) or '746169 6c'.replace(' ', '')})
+        # the segmentation chosen by the solver is not part of the replayed input: try whole-message and small chunks
+        case = [{'driver': 'request_roundtrip', 'args': dict(args, chunk=c)} for c in (0, 1, 2, 3, 5, 7)]
         what = m.group(2)
         if what == 'unrepresentable-destination-refused':
             return 'socks', case, lambda o: not o.get('panicked') and o.get('write_ok') is True
@@ -350,6 +371,32 @@ def replay_plan(ob):
             return 'socks', case, lambda o: not o.get('panicked') and o.get('read_ok') and not (o.get('same_target') and o.get('same_cmd'))
         if what == 'written-request-is-readable':
             return 'socks', case, lambda o: not o.get('panicked') and o.get('write_ok') and o.get('read_ok') is False
+        if what == 'reader-leaves-exactly-the-following-bytes':
+            return 'socks', case, lambda o: not o.get('panicked') and o.get('read_ok') and o.get('rest_is_tail') is False
+    if lab == 'C12/socks-request/truncated-input-is-an-error' and 'client_bytes' in inp:
+        case = {'driver': 'read_request', 'args': {'input': _hx(inp['client_bytes']), 'chunk': 0}}
+        if 'auth_required' in inp:
+            case['args']['auth_required'] = inp['auth_required']
+        return 'socks', case, lambda o: not o.get('panicked') and o.get('ok') is True
+    if lab == 'C12/socks-reply/truncated-input-is-an-error' and 'upstream_bytes' in inp:
+        case = {'driver': 'read_response', 'args': {'input': _hx(inp['upstream_bytes']), 'chunk': 0}}
+        return 'socks', case, lambda o: not o.get('panicked') and o.get('ok') is True
+    if (lab.startswith('C05/stream-frames/') or t == 'Frame::from_buffer(complete frame)') and 'frame_bytes' in inp:
+        case = {'driver': 'stream_read', 'args': {'stream': _hx(inp['frame_bytes']), 'chunks': [], 'reads': 1}}
+        return 'frames', case, panicked
+    if t == 'StreamFrameReader::read' and 'stream' in inp:
+        st_ = bytes.fromhex(_hx(inp['stream']))[inp.get('frame_start', 0):]
+        if isinstance(inp.get('failing_frame'), dict):
+            st_ = bytes.fromhex(inp['failing_frame'].get('hex', ''))
+        case = {'driver': 'stream_read', 'args': {'stream': st_.hex(), 'chunks': [x for x in inp.get('read_sizes', []) if isinstance(x, int)], 'reads': 1}}
+        return 'frames', case, panicked
+    if t.startswith('SocksRequest::read_from') and 'client_bytes' in inp:
+        case = {'driver': 'read_request', 'args': {'input': _hx(inp['client_bytes']), 'chunk': 0}}
+        if 'auth_required' in inp:
+            case['args']['auth_required'] = inp['auth_required']
+        return 'socks', case, panicked
+    if t == 'SocksResponse::read_from' and 'upstream_bytes' in inp:
+        return 'socks', {'driver': 'read_response', 'args': {'input': _hx(inp['upstream_bytes']), 'chunk': 0}}, panicked
     if t == 'decode_address' and 'attr' in inp:
         return 'frames', {'driver': 'decode_address', 'args': {'attr': _hx(inp['attr'])}}, panicked
     if t == 'Frame::from_buffer' and 'framebuf' in inp:
@@ -641,3 +688,108 @@ def spec_socks_response_reader(ck, inmax=400):
         ex.prove(s, 'C12/socks-reply/truncated-input-is-an-error', z3.Implies(ok, len(eofs) == 0))
     ck.absorb(ex, 'SocksResponse::read_from', [s for s, _ in outs])
     ck.bounds['socks-reply-reader'] = 'any upstream byte string <= %d bytes' % inmax
+
+
+# =========================================================================== StreamFrameReader::read under arbitrary segmentation
+
+def spec_stream_frame_reader(ck, nreads=3):
+    """one read() call from an ARBITRARY reader state (carry-over buffer = any already-delivered prefix of the rest of
+    the stream), the stream delivered by <= nreads reads of arbitrary positive sizes.  Covers call sequences by induction.
+    Frame::from_buffer is summarised during this exploration (assume/guarantee): it is called on some buffer B and its
+    result is returned unchanged; the guarantees checked are (a) B is exactly the next frame's bytes, (b) the carry-over
+    is exactly the delivered-but-unread suffix, (c) [separately, with the real from_buffer] decoding such a B never fails
+    -- which is what the unwrap() in read() relies on."""
+    rd = ck.find(lambda: ck.db.method('StreamFrameReader', 'read', trait='FrameReader'), 'StreamFrameReader::read')
+    fb = ck.find(lambda: ck.db.method('Frame', 'from_buffer'), 'Frame::from_buffer')
+    ck.find(lambda: ck.db.method('Frame', 'read_head'), 'Frame::read_head')
+    if rd is None or fb is None:
+        return
+    SMAX = 2 * (12 + 300 + 64) + 64
+    # (c) with the REAL decoder: can a complete frame (per read_head) fail to decode?  If it can, the summary used during
+    # the exploration below returns Ok or Err, so an unwrap()/expect() on it in read() shows up as a reachable panic site.
+    ex2 = ck.engine()
+    st2 = State()
+    B = sym_bytes(ex2, st2, 'frame_bytes', 12 + 300 + 64)
+    attr_len = z3.ZeroExt(48, z3.Concat(B.at(8), B.at(9)))
+    body_len = z3.ZeroExt(48, z3.Concat(B.at(10), B.at(11)))
+    ex2.assume(st2, z3.And(z3.UGE(B.len, BV(12, 64)), z3.Concat(B.at(0), B.at(1), B.at(2), B.at(3)) == BV(0x5250464d, 32),
+                           B.len == BV(12, 64) + attr_len + body_len))
+    ex2.inputs = {'frame_bytes': B}
+    fouts = ex2.call_fn(st2, fb, [B])
+    failing = None
+    for q in fouts:
+        if q.status != 'returned':
+            continue
+        okq, _ = _ok_payload(q.ret)
+        r_, m_ = ex2.check(q.pc, [z3.Not(okq)])
+        if r_ == 'sat' and failing is None:
+            m_ = ex2.small_model(q.pc, [z3.Not(okq)], m_)
+            failing = ex2.model_value(m_, B)
+    ck.absorb(ex2, 'Frame::from_buffer(complete frame)', fouts)
+    ck.notes.append('stream-frames: a length-consistent frame that fails to decode %s' % ('exists: ' + failing['hex'] if failing else 'does not exist'))
+    ex = ck.engine(loop_bound=nreads + 3)
+    ex.read_budget = nreads
+    ex.type_bindings.update({'T': 'Stream'})
+
+    def fb_summary(ctx):
+        b = ctx.ex.deref(ctx.st, ctx.args[0])
+        fr = Agg('Frame', {0: Opaque('Option<TargetAddress>', 'addr'), 1: Int(z3.BitVec(fresh_name('sid'), 32), 32), 2: Bytes.symbolic('fbody')})
+        ctx.st.trace.append(('from_buffer', b, fr))
+        if failing is None:
+            return C.mk_result(ctx.ex, ok=fr)
+        d = z3.BitVec(fresh_name('decode_fails'), 64)
+        ctx.ex.assume(ctx.st, z3.ULT(d, BV(2, 64)))
+        ctx.st.env['inputs'] = dict(ctx.st.env.get('inputs', {}), failing_frame=failing)
+        return Agg('Result', {}, d, {0: {0: fr}, 1: {0: Opaque('std::io::Error', 'decode')}}, ctx.ex.si.enums['Result'])
+    ex.overrides.append((re.compile(r'(?:^|::)Frame::from_buffer$'), fb_summary))
+    st = State()
+    S = sym_bytes(ex, st, 'stream', SMAX)
+    start = z3.BitVec('frame_start', 64)       # where the next frame starts in S
+    pos0 = z3.BitVec('delivered', 64)          # bytes of S delivered so far
+    ex.assume(st, z3.And(z3.ULE(start, pos0), z3.ULE(pos0, S.len)))
+    has_carry = z3.Bool('has_carry')
+    ex.assume(st, z3.Implies(z3.Not(has_carry), start == pos0))
+    carry = S.slice(start, simp(pos0 - start), 'bytesmut')
+    carry = C.with_cap(carry, simp(BV(131072, 64) - start))
+    remaining = Agg('Option', {}, simp(z3.If(has_carry, BV(1, 64), BV(0, 64))), {1: {0: carry}}, ex.si.enums['Option'])
+    reader = Agg('StreamFrameReader', {0: Stream('peer', S, pos=pos0), 1: remaining})
+    rcell = st.alloc(reader)
+    ex.inputs = {'stream': S, 'frame_start': start, 'delivered': pos0, 'has_carry': has_carry}
+    outs = run_async(ex, st, rd, [Ref(rcell, ())])
+    need = BV(12, 64) + z3.ZeroExt(48, z3.Concat(S.at(start + 8), S.at(start + 9))) + z3.ZeroExt(48, z3.Concat(S.at(start + 10), S.at(start + 11)))
+    magic = z3.Concat(S.at(start), S.at(start + 1), S.at(start + 2), S.at(start + 3))
+    for o, r in outs:
+        if r is None or o.status != 'returned':
+            continue
+        rdr = o.mem[rcell]
+        strm = rdr.fields[0]
+        o.env['inputs'] = dict(o.env.get('inputs', {}), read_sizes=[Int(x, 64) for x in o.env.get('read_sizes', [])])
+        if _is_err_concrete(r):
+            if [e for e in o.trace if e[0] == 'from_buffer']:
+                continue     # decode error of a complete frame, propagated
+            ex.prove(o, 'C12/stream-frames/error-only-on-bad-magic', z3.And(z3.UGE(strm.pos - start, BV(12, 64)), magic != BV(0x5250464d, 32)))
+            continue
+        ok, opt = _ok_payload(r)
+        if opt is None:
+            continue
+        d = opt.discr if isinstance(opt.discr, int) else concrete(opt.discr)
+        calls = [e for e in o.trace if e[0] == 'from_buffer']
+        if d == 0:
+            ex.prove(o, 'C12/stream-frames/eof-only-after-all-bytes-delivered', strm.pos == S.len)
+            ex.prove(o, 'C12/stream-frames/eof-never-drops-a-complete-frame',
+                     z3.Or(z3.ULT(S.len - start, BV(12, 64)), z3.ULT(S.len - start, need)))
+            ex.prove(o, 'C12/stream-frames/no-frame-fabricated-at-eof', len(calls) == 0)
+            continue
+        frame = opt.variants[1][0]
+        ex.prove(o, 'C12/stream-frames/one-decode-per-frame', len(calls) == 1)
+        if calls:
+            ex.prove(o, 'C12/stream-frames/returned-frame-is-the-decoded-one', frame is calls[0][2])
+            prove_bytes_eq(ex, o, 'C12/stream-frames/decoded-bytes-are-exactly-the-next-frame', calls[0][1], S.slice(start, need))
+        rem = rdr.fields[1]
+        rb = rem.variants.get(1, {}).get(0)
+        ex.prove(o, 'C12/stream-frames/carry-over-kept', _discr(rem) == BV(1, 64))
+        if rb is not None:
+            prove_bytes_eq(ex, o, 'C12/stream-frames/carry-over-is-exactly-the-unread-suffix', rb, S.slice(start + need, strm.pos - (start + need)))
+    ck.absorb(ex, 'StreamFrameReader::read', [o for o, _ in outs])
+    ck.bounds['stream-frame-reader'] = ('one read() call from any reader state (carry-over = any delivered prefix of the rest of a stream <= %d bytes), '
+                                        'delivered by <= %d further reads of arbitrary positive sizes; frames <= 376 bytes for the decode guarantee' % (SMAX, nreads))
